@@ -164,6 +164,10 @@ pub fn check_variant(v: &Variant) -> Vec<(String, String)> {
             }
         }
     }
+    // serde's own contract, independent of any format: announced lengths are the real ones
+    for e in crate::lencheck::check(v) {
+        out.push((format!("serialize-contract|{}", tyname), format!("Serialize for {}: {} [{}]", tyname, e, want.chars().take(80).collect::<String>())));
+    }
     // bincode
     match bincode::serialize(v) {
         Err(e) => out.push((format!("bincode-ser|{}", tyname), format!("bincode::serialize failed: {}", e))),
@@ -574,7 +578,7 @@ pub fn check(run: &Run) -> Value {
         "samples": total.samples.iter().map(|s| serde_json::from_str::<Value>(s).unwrap()).collect::<Vec<_>>(),
         "exhaustive": true,
         "exhaustive_subdomains": ["all 65536 u16 BrickColor numbers", "all 256 Faces and Axes bit sets", "every entry of rbx_dom_lua/src/allValues.json"],
-        "rule": "every alphabet value of every Variant type, bare and wrapped in Attributes maps (one entry, three entries, a map inside a map) and OptionalCFrame, through serde_json (from_str, from_slice, from_reader, from_value, pretty text; finite floats), bincode and MessagePack (compact and named); all u16 through BrickColor number/name/serde; all 256 bit sets; Ref Display/FromStr over 0, MAX and every single-bit value; UniqueId Display/FromStr over the boundary product incl. negative random parts; Tags and MaterialColors value -> blob -> value, and blob -> value -> blob for every byte string of length <= 6 over {NUL, 'a', ' ', C3, A9, FF} (Tags) and blobs of every length 0..=300 in four fillings (MaterialColors: an accepted blob must re-encode to itself, reserved rows zeroed); every allValues.json sample decoded through three entry points and re-encoded",
+        "rule": "every alphabet value of every Variant type, bare and wrapped in Attributes maps (one entry, three entries, a map inside a map) and OptionalCFrame, against serde's length contract (a counting serializer, both is_human_readable answers) and through serde_json (from_str, from_slice, from_reader, from_value, pretty text; finite floats), bincode and MessagePack (compact and named); all u16 through BrickColor number/name/serde; all 256 bit sets; Ref Display/FromStr over 0, MAX and every single-bit value; UniqueId Display/FromStr over the boundary product incl. negative random parts; Tags and MaterialColors value -> blob -> value, and blob -> value -> blob for every byte string of length <= 6 over {NUL, 'a', ' ', C3, A9, FF} (Tags) and blobs of every length 0..=300 in four fillings (MaterialColors: an accepted blob must re-encode to itself, reserved rows zeroed); every allValues.json sample decoded through three entry points and re-encoded",
     })
 }
 
